@@ -149,7 +149,10 @@ class C18(World):
                 w = swarm["w_build"]
                 cand = [("renew", 0.4), ("build_cond", 2 * w), ("build_evap", 2 * w), ("build_both", 1 * w), ("set_dtcont", 0.7), ("set_dtdiff", 0.3), ("read", 0.7), ("solve", 1.0 * swarm["w_resolve"]), ("solve_fail", 10 * swarm["p_fail"])]
                 op = ops.choices([k for k, _ in cand], [x for _, x in cand])[0]
-                if op == "solve":
+                if op == "solve" and args.random() < 0.4:
+                    # re-solve the same operating point with ONE argument changed (resolved at execution from the object's last request)
+                    st = dict(op="solve_variant", field=args.choice(["Q", "Q", "eta", "dT_sh", "dT_sc", "Te", "Tc"]), v=args.choice([0, 1, 2]))
+                elif op == "solve":
                     st = gen_solve()
                     if args.random() < 0.15:
                         st["refrigerant_none"] = True  # re-solve on the same fluid object (refrigerant=None)
@@ -372,8 +375,24 @@ class C18(World):
             prev_op = op
             outcome = None
             others_before = {j: (read_metrics(objs[j]) if M[j]["solved"] and M[j]["judged"] else None) for j in range(n_obj) if j != o}
-            if op in ("solve", "solve_fail"):
-                a = dict(refrigerant=st["refrigerant"], Te=st["Te"], Tc=st["Tc"], dT_sh=st["dT_sh"], dT_sc=st["dT_sc"], eta=st["eta"], Q=st["Q"])
+            if op == "solve_variant" and not (m["solved"] and m["args"]):
+                outcome = "skip"
+            elif op in ("solve", "solve_fail", "solve_variant"):
+                if op == "solve_variant":
+                    a = dict(m["args"])
+                    f, k = st["field"], st["v"]
+                    if f == "Q":
+                        a["Q"] = [250.0, 1.0, 37.5][k] if a["Q"] != [250.0, 1.0, 37.5][k] else 10.0
+                    elif f == "eta":
+                        a["eta"] = [0.6, 0.85, 1.0][k] if a["eta"] != [0.6, 0.85, 1.0][k] else 0.75
+                    elif f in ("dT_sh", "dT_sc"):
+                        a[f] = [0.0, 2.0, 5.0][k] if a[f] != [0.0, 2.0, 5.0][k] else 3.0
+                    else:
+                        a[f] = round(a[f] + [-1.0, 0.5, 1.0][k] * (1 if f == "Tc" else -1), 2)
+                    st = dict(st, refrigerant=a["refrigerant"])
+                    probe("re_solve_one_argument_changed")
+                else:
+                    a = dict(refrigerant=st["refrigerant"], Te=st["Te"], Tc=st["Tc"], dT_sh=st["dT_sh"], dT_sc=st["dT_sc"], eta=st["eta"], Q=st["Q"])
                 if op == "solve_fail":
                     lim = limits(a["refrigerant"])
                     if st["how"] == "Te_above_Tc":
@@ -400,7 +419,7 @@ class C18(World):
                         probe("re_solve")
                     m.update(solved=True, args=a, first={}, pattern=[], metrics=None)
                     lim = limits(a["refrigerant"])
-                    in_domain = lim is not None and lim[0] + 5.0 - 0.011 <= a["Te"] + 273.15 and a["Tc"] + 273.15 <= lim[1] - 10.0 + 0.011 and a["Tc"] - a["Te"] >= a["dT_sh"] + a["dT_sc"] + 5.0 - 1e-9 and op == "solve"
+                    in_domain = lim is not None and lim[0] + 5.0 - 0.011 <= a["Te"] + 273.15 and a["Tc"] + 273.15 <= lim[1] - 10.0 + 0.011 and a["Tc"] - a["Te"] >= a["dT_sh"] + a["dT_sc"] + 5.0 - 1e-9 and op in ("solve", "solve_variant")
                     if in_domain:
                         try:
                             in_domain = CP.PropsSI("P", "T", a["Te"] + 273.15, "Q", 1, a["refrigerant"]) >= 10.0 * 0.999
